@@ -124,7 +124,8 @@ PLANS = {
         rule="every optional numeric field: all values if <= 10(12) bits, else sentinel neighbourhood, extremes, random"),
     "C12": dict(
         mc=[mc("MC_Enums", "MC_Enums.cfg")],
-        families=[fam("enums", F.fam_enums)],
+        families=[fam("enums", F.fam_enums, builds=ALL3)],
+        builds=ALL3,
         exhaustive="both",
         rule="every code of every enumerated field in every type carrying it x 3 backgrounds; ShipType 0..255 with round trip"),
     "C13": dict(
@@ -184,7 +185,8 @@ PLANS = {
         custom=[dict(run=cross(F.fam_capacity, "capacity")), dict(run=cross(F.fam_random_messages, "randmsg")),
                 dict(run=cross(F.fam_text_small, "textsmall")),
                 dict(run=cross(F.fam_text_small, "textsmall", "none")), dict(run=cross(F.fam_random_messages, "randmsg", "none")),
-                dict(run=cross(F.fam_capacity, "capacity", "none")),
+                dict(run=cross(F.fam_capacity, "capacity", "none")), dict(run=cross(F.fam_totality, "totality", "none")),
+                dict(run=cross(F.fam_seq, "seq", "none")),
                 dict(run=cross(F.fam_seq, "seq")), dict(run=cross(F.fam_grammar, "grammar")),
                 dict(run=walk_none), dict(run=walk_alloc)],
         rule="Equiv over all histories of the three lock-step builds (negative control: number advanced before the append); each "
